@@ -9,7 +9,8 @@ use std::str::FromStr;
 
 use purl::{GenericPurl, GenericPurlBuilder, PurlShape};
 use serde::de::value::{
-    BoolDeserializer, BorrowedStrDeserializer, CowStrDeserializer, Error as ValueError, F64Deserializer,
+    BoolDeserializer, BorrowedBytesDeserializer, BorrowedStrDeserializer, BytesDeserializer, CowStrDeserializer,
+    Error as ValueError, F64Deserializer,
     I64Deserializer, MapDeserializer, SeqDeserializer, StrDeserializer, StringDeserializer, U64Deserializer,
     UnitDeserializer,
 };
@@ -133,9 +134,116 @@ pub enum Pos {
     Byte(usize),
 }
 
+/// How every document embeds its PURL (or the raw value standing in for it).
+#[derive(Clone, Copy, Debug, Default, PartialEq, Eq, Serialize, Deserialize)]
+pub enum Wrap {
+    /// The document is the PURL itself.
+    #[default]
+    Bare,
+    /// `{"id":7,"purl":<P>,"tags":["a","b"]}` through a derived struct.
+    Struct,
+    /// `[<P>]` through `Vec`.
+    Seq,
+    /// `{<P>:1}` through `BTreeMap<GenericPurl<T>, u32>`: the PURL is a JSON object key.
+    MapKey,
+    /// `<P>` through `Option`.
+    Opt,
+    /// `[<P>,"x"]` through a tuple.
+    Pair,
+}
+
+impl Wrap {
+    const fn code(self) -> u8 {
+        match self {
+            Wrap::Bare => 0,
+            Wrap::Struct => 1,
+            Wrap::Seq => 2,
+            Wrap::MapKey => 3,
+            Wrap::Opt => 4,
+            Wrap::Pair => 5,
+        }
+    }
+}
+
+#[derive(Serialize, Deserialize)]
+struct Rec<P> {
+    id: u32,
+    purl: P,
+    tags: Vec<String>,
+}
+
+#[derive(Serialize)]
+struct RecRef<'a, P> {
+    id: u32,
+    purl: &'a P,
+    tags: [&'a str; 2],
+}
+
+/// Serialises `P` embedded the way wrap code `K` says.
+struct WS<'a, P, const K: u8>(&'a P);
+
+impl<P: Serialize, const K: u8> Serialize for WS<'_, P, K> {
+    fn serialize<S: serde::Serializer>(&self, s: S) -> Result<S::Ok, S::Error> {
+        match K {
+            1 => RecRef { id: 7, purl: self.0, tags: ["a", "b"] }.serialize(s),
+            2 => s.collect_seq(std::iter::once(self.0)),
+            3 => s.collect_map(std::iter::once((self.0, 1u32))),
+            4 => Some(self.0).serialize(s),
+            5 => (self.0, "x").serialize(s),
+            _ => self.0.serialize(s),
+        }
+    }
+}
+
+/// Deserialises a `P` embedded the way wrap code `K` says, and extracts it.
+struct W<P, const K: u8>(P);
+
+impl<'de, P: Deserialize<'de> + Ord, const K: u8> Deserialize<'de> for W<P, K> {
+    fn deserialize<D: serde::Deserializer<'de>>(d: D) -> Result<Self, D::Error> {
+        use serde::de::Error;
+        match K {
+            1 => Rec::<P>::deserialize(d).map(|r| W(r.purl)),
+            2 => {
+                let mut v = Vec::<P>::deserialize(d)?;
+                match (v.pop(), v.is_empty()) {
+                    (Some(p), true) => Ok(W(p)),
+                    _ => Err(D::Error::custom("harness: expected exactly one element")),
+                }
+            },
+            3 => {
+                let m = std::collections::BTreeMap::<P, u32>::deserialize(d)?;
+                let mut keys = m.into_keys();
+                match (keys.next(), keys.next()) {
+                    (Some(p), None) => Ok(W(p)),
+                    _ => Err(D::Error::custom("harness: expected exactly one key")),
+                }
+            },
+            4 => Option::<P>::deserialize(d)?.map(W).ok_or_else(|| D::Error::custom("harness: null")),
+            5 => <(P, String)>::deserialize(d).map(|(p, _)| W(p)),
+            _ => P::deserialize(d).map(W),
+        }
+    }
+}
+
+const PLACEHOLDER: &str = "@@PURL@@";
+
+/// The bytes before and after the PURL literal in a document with wrap code `K`, taken from the
+/// real serializer applied to the same wrapper around a plain `String`.
+fn template<const K: u8>(pretty: bool) -> (Vec<u8>, Vec<u8>) {
+    let inner = PLACEHOLDER.to_owned();
+    let bytes = if pretty { serde_json::to_vec_pretty(&WS::<String, K>(&inner)) } else { serde_json::to_vec(&WS::<String, K>(&inner)) }
+        .expect("serialising the template cannot fail");
+    let text = String::from_utf8(bytes).expect("JSON is UTF-8");
+    let needle = format!("\"{PLACEHOLDER}\"");
+    let at = text.find(&needle).expect("the template contains the placeholder");
+    (text[..at].as_bytes().to_vec(), text[at + needle.len()..].as_bytes().to_vec())
+}
+
 #[derive(Clone, Debug, PartialEq, Eq, Serialize, Deserialize)]
 pub struct Scenario {
     pub ty: Ty,
+    #[serde(default)]
+    pub wrap: Wrap,
     pub docs: Vec<DocSpec>,
     /// Separator between documents in the stream (whitespace or nothing).
     pub sep: String,
@@ -446,6 +554,9 @@ struct Item<T> {
     string: Option<String>,
     /// The document's bytes as they should appear in the stream.
     json: Vec<u8>,
+    /// Where the PURL literal (or the raw value standing in for it) sits within `json`.
+    lit_start: usize,
+    lit_len: usize,
     /// Offset map for layout positions (canonical documents only).
     map: Vec<usize>,
     /// What parsing `string` gives (None = refused or not a string).
@@ -477,11 +588,62 @@ fn rkind_name(k: RFault) -> &'static str {
     }
 }
 
-fn execute_typed<T>(sc: &Scenario, log: &mut Log, stats: &mut Stats) -> Result<bool, Violation>
+/// Deserialise `s` (as an in-memory string value) into `GenericPurl<X>` and compare with `from_str`.
+fn echo_as<X>(s: &str, label: &str) -> Result<(), Violation>
 where
-    T: FromStr + PurlShape + PartialEq + Debug + Clone,
+    X: FromStr + PurlShape + PartialEq + Debug,
+    <X as PurlShape>::Error: Display + From<<X as FromStr>::Err>,
+{
+    let expected = guarded(|| GenericPurl::<X>::from_str(s).ok())
+        .map_err(|p| violation!("C16.panic_in_parse", "parsing {s:?} panicked: {p}"))?;
+    let got = guarded(|| serde_json::from_value::<GenericPurl<X>>(serde_json::Value::String(s.to_owned())).ok())
+        .map_err(|p| violation!("C16.panic_in_deserialize", "deserialising the string value {s:?} panicked: {p}"))?;
+    match (expected, got) {
+        (Some(p), Some(q)) if p == q => Ok(()),
+        (None, None) => Ok(()),
+        (Some(p), Some(q)) => Err(violation!("C16.deserialized_purl_differs", "echo through {label}: the string value {s:?} deserialised to {q}, parsing it gives {p}")),
+        (None, Some(q)) => Err(violation!("C16.deserialize_accepts_what_parser_refuses", "echo through {label}: the parser refuses {s:?}, deserialising the string value gives {q}")),
+        (Some(p), None) => Err(violation!("C16.deserialize_refuses_what_parser_accepts", "echo through {label}: the parser accepts {s:?} (as {p}), deserialising the string value fails")),
+    }
+}
+
+/// The other built-in type parameter of the pair (GenericPurl<String>, Purl).
+trait CrossShape {
+    fn echo_other(s: &str) -> Result<(), Violation>;
+}
+
+impl CrossShape for String {
+    fn echo_other(s: &str) -> Result<(), Violation> {
+        #[cfg(feature = "full")]
+        return echo_as::<purl::PackageType>(s, "the other type parameter (Purl)");
+        #[cfg(not(feature = "full"))]
+        {
+            let _ = s;
+            Ok(())
+        }
+    }
+}
+
+#[cfg(feature = "full")]
+impl CrossShape for purl::PackageType {
+    fn echo_other(s: &str) -> Result<(), Violation> {
+        echo_as::<String>(s, "the other type parameter (GenericPurl<String>)")
+    }
+}
+
+fn execute_typed<T, const K: u8>(sc: &Scenario, log: &mut Log, stats: &mut Stats) -> Result<bool, Violation>
+where
+    T: FromStr + PurlShape + PartialEq + Ord + Debug + Clone + CrossShape,
     <T as PurlShape>::Error: Display + From<<T as FromStr>::Err>,
 {
+    let pretty = sc.ser == SerKind::ToWriterPretty;
+    let (prefix, suffix) = template::<K>(pretty);
+    let embed = |lit: &[u8]| -> (Vec<u8>, usize, usize) {
+        let mut doc = prefix.clone();
+        doc.extend_from_slice(lit);
+        doc.extend_from_slice(&suffix);
+        (doc, prefix.len(), lit.len())
+    };
     let parse = |s: &str| -> Result<Option<GenericPurl<T>>, Violation> {
         guarded(|| GenericPurl::<T>::from_str(s).ok())
             .map_err(|p| violation!("C16.panic_in_parse", "parsing {s:?} panicked: {p}"))
@@ -494,13 +656,15 @@ where
             DocSpec::Parsed { input } => match parse(input)? {
                 Some(p) => {
                     let canon = guarded(|| p.to_string()).map_err(|e| violation!("C16.panic_in_display", "to_string() of the PURL parsed from {input:?} panicked: {e}"))?;
-                    let (json, map) = json_minimal(&canon);
+                    let (lit, map) = json_minimal(&canon);
+                    let (json, lit_start, lit_len) = embed(lit.as_bytes());
                     let parsed = parse(&canon)?;
-                    items.push(Item { value: Some(p), round_trip_applies: true, string: Some(canon), json: json.into_bytes(), map, parsed, origin: "parsed" });
+                    items.push(Item { value: Some(p), round_trip_applies: true, string: Some(canon), json, lit_start, lit_len, map, parsed, origin: "parsed" });
                 },
                 None => {
-                    let (json, map) = json_minimal(input);
-                    items.push(Item { value: None, round_trip_applies: false, string: Some(input.clone()), json: json.into_bytes(), map, parsed: None, origin: "refused_input" });
+                    let (lit, map) = json_minimal(input);
+                    let (json, lit_start, lit_len) = embed(lit.as_bytes());
+                    items.push(Item { value: None, round_trip_applies: false, string: Some(input.clone()), json, lit_start, lit_len, map, parsed: None, origin: "refused_input" });
                 },
             },
             DocSpec::Built(b) => {
@@ -518,17 +682,24 @@ where
                 let built = guarded(move || builder.build().ok()).map_err(|p| violation!("C16.panic_in_build", "building {b:?} panicked: {p}"))?;
                 let Some(p) = built else { continue };
                 let canon = guarded(|| p.to_string()).map_err(|e| violation!("C16.panic_in_display", "to_string() of the PURL built from {b:?} panicked: {e}"))?;
-                let (json, map) = json_minimal(&canon);
+                let (lit, map) = json_minimal(&canon);
+                let (json, lit_start, lit_len) = embed(lit.as_bytes());
                 let parsed = parse(&canon)?;
-                items.push(Item { value: Some(p), round_trip_applies: clean_builder_value(b), string: Some(canon), json: json.into_bytes(), map, parsed, origin: "built" });
+                items.push(Item { value: Some(p), round_trip_applies: clean_builder_value(b), string: Some(canon), json, lit_start, lit_len, map, parsed, origin: "built" });
             },
             DocSpec::RawString { s, json_seed } => {
-                let json = json_spell(s, *json_seed);
+                let lit = json_spell(s, *json_seed);
+                let (json, lit_start, lit_len) = embed(lit.as_bytes());
                 let parsed = parse(s)?;
-                items.push(Item { value: None, round_trip_applies: false, string: Some(s.clone()), json: json.into_bytes(), map: Vec::new(), parsed, origin: "raw_string" });
+                items.push(Item { value: None, round_trip_applies: false, string: Some(s.clone()), json, lit_start, lit_len, map: Vec::new(), parsed, origin: "raw_string" });
             },
             DocSpec::RawJson { text } => {
-                items.push(Item { value: None, round_trip_applies: false, string: None, json: text.clone().into_bytes(), map: Vec::new(), parsed: None, origin: "raw_json" });
+                if K == 3 {
+                    // A JSON object key is always a string; there is no non-string document in this lane.
+                    continue;
+                }
+                let (json, lit_start, lit_len) = embed(text.as_bytes());
+                items.push(Item { value: None, round_trip_applies: false, string: None, json, lit_start, lit_len, map: Vec::new(), parsed: None, origin: "raw_json" });
             },
         }
     }
@@ -547,8 +718,12 @@ where
             Pos::Layout { doc, class, k } if doc % items.len() == i => {
                 if !it.map.is_empty() {
                     let s = it.string.as_deref().unwrap_or("");
-                    let (off, lc) = layout_offset(s, it.json.len(), &it.map, class, k);
-                    Some((off, Some(lc)))
+                    let (off, lc) = layout_offset(s, it.lit_len, &it.map, class, k);
+                    if lc == LC::AfterEnd {
+                        Some((it.json.len(), Some(lc)))
+                    } else {
+                        Some((it.lit_start + off, Some(lc)))
+                    }
                 } else {
                     Some((1 + k % it.json.len().saturating_sub(1).max(1), None))
                 }
@@ -595,28 +770,28 @@ where
         let sticky_calls_before = writer.stats.calls_after_sticky;
         let mut fmt_fired: Vec<(usize, FmtFault)> = Vec::new();
         let ok: bool = match sc.ser {
-            SerKind::ToWriter => guarded(|| serde_json::to_writer(&mut writer, p).is_ok()),
-            SerKind::ToWriterPretty => guarded(|| serde_json::to_writer_pretty(&mut writer, p).is_ok()),
+            SerKind::ToWriter => guarded(|| serde_json::to_writer(&mut writer, &WS::<_, K>(p)).is_ok()),
+            SerKind::ToWriterPretty => guarded(|| serde_json::to_writer_pretty(&mut writer, &WS::<_, K>(p)).is_ok()),
             SerKind::ToBufWriter { cap } => guarded(|| {
                 let mut bw = BufWriter::with_capacity(cap, &mut writer);
-                let r = serde_json::to_writer(&mut bw, p).is_ok();
+                let r = serde_json::to_writer(&mut bw, &WS::<_, K>(p)).is_ok();
                 r && bw.flush().is_ok()
             }),
-            SerKind::ToVec => guarded(|| match serde_json::to_vec(p) {
+            SerKind::ToVec => guarded(|| match serde_json::to_vec(&WS::<_, K>(p)) {
                 Ok(v) => {
                     writer.push_raw(&v);
                     true
                 },
                 Err(_) => false,
             }),
-            SerKind::ToString => guarded(|| match serde_json::to_string(p) {
+            SerKind::ToString => guarded(|| match serde_json::to_string(&WS::<_, K>(p)) {
                 Ok(v) => {
                     writer.push_raw(v.as_bytes());
                     true
                 },
                 Err(_) => false,
             }),
-            SerKind::ToValue => guarded(|| match serde_json::to_value(p) {
+            SerKind::ToValue => guarded(|| match serde_json::to_value(&WS::<_, K>(p)) {
                 Ok(serde_json::Value::String(s)) => {
                     writer.push_raw(json_minimal(&s).0.as_bytes());
                     true
@@ -801,18 +976,18 @@ where
                 let mut out = Vec::new();
                 if single {
                     let r = if buf > 0 {
-                        serde_json::from_reader::<_, GenericPurl<T>>(BufReader::with_capacity(buf, &mut reader))
+                        serde_json::from_reader::<_, W<GenericPurl<T>, K>>(BufReader::with_capacity(buf, &mut reader))
                     } else {
-                        serde_json::from_reader::<_, GenericPurl<T>>(&mut reader)
+                        serde_json::from_reader::<_, W<GenericPurl<T>, K>>(&mut reader)
                     };
-                    out.push(r.map_err(|e| e.to_string()));
+                    out.push(r.map(|w| w.0).map_err(|e| e.to_string()));
                 } else if buf > 0 {
-                    for r in serde_json::Deserializer::from_reader(BufReader::with_capacity(buf, &mut reader)).into_iter::<GenericPurl<T>>().take(items.len() + 2) {
-                        out.push(r.map_err(|e| e.to_string()));
+                    for r in serde_json::Deserializer::from_reader(BufReader::with_capacity(buf, &mut reader)).into_iter::<W<GenericPurl<T>, K>>().take(items.len() + 2) {
+                        out.push(r.map(|w| w.0).map_err(|e| e.to_string()));
                     }
                 } else {
-                    for r in serde_json::Deserializer::from_reader(&mut reader).into_iter::<GenericPurl<T>>().take(items.len() + 2) {
-                        out.push(r.map_err(|e| e.to_string()));
+                    for r in serde_json::Deserializer::from_reader(&mut reader).into_iter::<W<GenericPurl<T>, K>>().take(items.len() + 2) {
+                        out.push(r.map(|w| w.0).map_err(|e| e.to_string()));
                     }
                 }
                 out
@@ -893,9 +1068,9 @@ where
                 let bytes = &stream[spans[i].0..spans[i].1];
                 let how = format!("{:?}, document {i}", sc.de);
                 let got: Result<GenericPurl<T>, String> = guarded(|| match (sc.de, &it.string) {
-                    (DeKind::Slice, _) => serde_json::from_slice::<GenericPurl<T>>(bytes).map_err(|e| e.to_string()),
+                    (DeKind::Slice, _) => serde_json::from_slice::<W<GenericPurl<T>, K>>(bytes).map(|w| w.0).map_err(|e| e.to_string()),
                     (DeKind::Str, _) => match std::str::from_utf8(bytes) {
-                        Ok(s) => serde_json::from_str::<GenericPurl<T>>(s).map_err(|e| e.to_string()),
+                        Ok(s) => serde_json::from_str::<W<GenericPurl<T>, K>>(s).map(|w| w.0).map_err(|e| e.to_string()),
                         Err(e) => Err(e.to_string()),
                     },
                     (DeKind::SerdeStr(n), Some(s)) => match n % 4 {
@@ -905,7 +1080,7 @@ where
                         _ => GenericPurl::<T>::deserialize(CowStrDeserializer::<ValueError>::new(Cow::Borrowed(s.as_str()))).map_err(|e| e.to_string()),
                     },
                     _ => match serde_json::from_slice::<serde_json::Value>(bytes) {
-                        Ok(v) => serde_json::from_value::<GenericPurl<T>>(v).map_err(|e| e.to_string()),
+                        Ok(v) => serde_json::from_value::<W<GenericPurl<T>, K>>(v).map(|w| w.0).map_err(|e| e.to_string()),
                         Err(e) => Err(format!("harness: document is not JSON: {e}")),
                     },
                 })
@@ -930,17 +1105,33 @@ where
         refused("f64", GenericPurl::<T>::deserialize(F64Deserializer::<ValueError>::new(1.5)))?;
         refused("bool", GenericPurl::<T>::deserialize(BoolDeserializer::<ValueError>::new(true)))?;
         refused("unit", GenericPurl::<T>::deserialize(UnitDeserializer::<ValueError>::new()))?;
-        refused("seq of strings", GenericPurl::<T>::deserialize(SeqDeserializer::<_, ValueError>::new(vec!["pkg:a/b"].into_iter())))?;
-        refused("seq of chars", GenericPurl::<T>::deserialize(SeqDeserializer::<_, ValueError>::new("pkg:a/b".chars())))?;
-        refused("map", GenericPurl::<T>::deserialize(MapDeserializer::<_, ValueError>::new(vec![("purl", "pkg:a/b")].into_iter())))?;
+        // "pkg:npm/b" is a PURL for both type parameters, so only the kind of value is in the way.
+        refused("seq of strings", GenericPurl::<T>::deserialize(SeqDeserializer::<_, ValueError>::new(vec!["pkg:npm/b"].into_iter())))?;
+        refused("seq of chars", GenericPurl::<T>::deserialize(SeqDeserializer::<_, ValueError>::new("pkg:npm/b".chars())))?;
+        refused("seq of bytes", GenericPurl::<T>::deserialize(SeqDeserializer::<_, ValueError>::new(b"pkg:npm/b".iter().copied())))?;
+        refused("map", GenericPurl::<T>::deserialize(MapDeserializer::<_, ValueError>::new(vec![("purl", "pkg:npm/b")].into_iter())))?;
+        // In serde's data model a byte string is not a string.
+        refused("bytes", GenericPurl::<T>::deserialize(BytesDeserializer::<ValueError>::new(b"pkg:npm/b")))?;
+        refused("borrowed bytes", GenericPurl::<T>::deserialize(BorrowedBytesDeserializer::<ValueError>::new(b"pkg:npm/b")))?;
         Ok(())
     })
     .map_err(|p| violation!("C16.panic_in_deserialize", "a serde value deserializer run panicked: {p}"))??;
 
+    // 6. Echo: every string document once more through the other type parameter and then again
+    // through this one. Each call stands alone, so the answers must not depend on what was
+    // deserialised before (a cache keyed on the string but not on the type would show here).
+    for it in &items {
+        if let Some(s) = &it.string {
+            T::echo_other(s)?;
+            echo_as::<T>(s, "the same type parameter again")?;
+            stats.bump("cross_type_echoes");
+        }
+    }
+
     // Reach: which (layout class) x (fault kind) cells were hit is in the counters; the tuple set
     // here is (serializer, deserializer, type parameter, document origins).
     let mut h = Fnv::default();
-    h.write(format!("{:?}|{:?}|{:?}", sc.ser, sc.de, sc.ty).as_bytes());
+    h.write(format!("{:?}|{:?}|{:?}|{:?}", sc.ser, sc.de, sc.ty, K).as_bytes());
     for it in &items {
         h.write(it.origin.as_bytes());
     }
@@ -1037,27 +1228,41 @@ impl Sim for C16 {
             Vec::new()
         };
         let f_faults = (0..n_faults(&mut rng)).map(|_| (pos(&mut rng), *rng.pick(&[FmtFault::Once, FmtFault::Once, FmtFault::Sticky]))).collect();
-        Scenario { ty, docs, sep, ser, de, w_chunk: chunk(&mut rng), w_faults, r_chunk: chunk(&mut rng), r_faults, f_faults }
+        let wrap = *rng.pick(&[Wrap::Bare, Wrap::Bare, Wrap::Bare, Wrap::Bare, Wrap::Struct, Wrap::Struct, Wrap::Seq, Wrap::MapKey, Wrap::MapKey, Wrap::Opt, Wrap::Pair]);
+        Scenario { ty, wrap, docs, sep, ser, de, w_chunk: chunk(&mut rng), w_faults, r_chunk: chunk(&mut rng), r_faults, f_faults }
     }
 
     fn execute(&self, sc: &Scenario, log: &mut Log, stats: &mut Stats) -> Result<bool, Violation> {
-        ev!(log, "scenario ty={:?} ser={:?} de={:?} w_chunk={} r_chunk={} w_faults={:?} r_faults={:?} f_faults={:?}", sc.ty, sc.ser, sc.de, sc.w_chunk, sc.r_chunk, sc.w_faults, sc.r_faults, sc.f_faults);
-        match sc.ty {
-            Ty::Generic => {
-                stats.bump("type_parameter.GenericPurl<String>");
-                execute_typed::<String>(sc, log, stats)
-            },
-            #[cfg(feature = "full")]
-            Ty::Typed => {
-                stats.bump("type_parameter.Purl");
-                execute_typed::<purl::PackageType>(sc, log, stats)
-            },
-            #[cfg(not(feature = "full"))]
-            Ty::Typed => {
-                stats.bump("type_parameter.GenericPurl<String>");
-                execute_typed::<String>(sc, log, stats)
-            },
+        ev!(log, "scenario ty={:?} wrap={:?} ser={:?} de={:?} w_chunk={} r_chunk={} w_faults={:?} r_faults={:?} f_faults={:?}", sc.ty, sc.wrap, sc.ser, sc.de, sc.w_chunk, sc.r_chunk, sc.w_faults, sc.r_faults, sc.f_faults);
+        // The string-only lanes have no room for a wrapper.
+        let wrap = if sc.ser == SerKind::OwnFmt || matches!(sc.de, DeKind::SerdeStr(_)) { Wrap::Bare } else { sc.wrap };
+        stats.bump(match wrap {
+            Wrap::Bare => "wrap.bare",
+            Wrap::Struct => "wrap.struct_field",
+            Wrap::Seq => "wrap.seq_element",
+            Wrap::MapKey => "wrap.map_key",
+            Wrap::Opt => "wrap.option",
+            Wrap::Pair => "wrap.tuple_element",
+        });
+        macro_rules! go {
+            ($t:ty) => {
+                match wrap.code() {
+                    1 => execute_typed::<$t, 1>(sc, log, stats),
+                    2 => execute_typed::<$t, 2>(sc, log, stats),
+                    3 => execute_typed::<$t, 3>(sc, log, stats),
+                    4 => execute_typed::<$t, 4>(sc, log, stats),
+                    5 => execute_typed::<$t, 5>(sc, log, stats),
+                    _ => execute_typed::<$t, 0>(sc, log, stats),
+                }
+            };
         }
+        #[cfg(feature = "full")]
+        if sc.ty == Ty::Typed {
+            stats.bump("type_parameter.Purl");
+            return go!(purl::PackageType);
+        }
+        stats.bump("type_parameter.GenericPurl<String>");
+        go!(String)
     }
 
     fn shrink_candidates(&self, sc: &Scenario) -> Vec<Scenario> {
@@ -1104,6 +1309,11 @@ impl Sim for C16 {
         if sc.ty != Ty::Generic {
             let mut s = sc.clone();
             s.ty = Ty::Generic;
+            out.push(s);
+        }
+        if sc.wrap != Wrap::Bare {
+            let mut s = sc.clone();
+            s.wrap = Wrap::Bare;
             out.push(s);
         }
         if sc.sep != "\n" {
